@@ -248,7 +248,10 @@ def tq(p, q):
     return r if (p >= 0) == (q > 0) else -r
 cands = [tq(-sa * a, sb * b), tq(sa * 2, -sb * 1)]
 okc = abs(can) == min(abs(x) for x in cands) and can in cands
-print("cancel", can, "candidates", cands)
+g3 = Equilibrium({"X": b, "Z": 1}, {"Y": 1}, 1) if sb < 0 else Equilibrium({"Y": 1}, {"X": b, "Z": 1}, 1)
+can3 = g1.cancel(g3)
+okc = okc and can3 == 0
+print("cancel", can, "candidates", cands, "with a foreign species", can3)
 sys.exit(0 if (c[0] != 0 and c[1] != 0 and tot == 0 and all(int(x) == x for x in c) and okc) else 1)
 '''
 
@@ -270,12 +273,16 @@ def task_eliminate(maxc):
         g1 = Equilibrium({"X": av}, {"Y": 2}, 1) if s1 < 0 else Equilibrium({"Y": 2}, {"X": av}, 1)
         g2 = Equilibrium({"X": bv}, {"Y": 1}, 1) if s2 < 0 else Equilibrium({"Y": 1}, {"X": bv}, 1)
         can = g1.cancel(g2)
-        return (av, bv, s1, s2), c, can
+        # an equilibrium that also involves a species the first one lacks cannot be added or subtracted even once without bringing
+        # that species in: the multiplier is 0
+        g3 = Equilibrium({"X": bv, "Z": 1}, {"Y": 1}, 1) if s2 < 0 else Equilibrium({"Y": 1}, {"X": bv, "Z": 1}, 1)
+        can3 = g1.cancel(g3)
+        return (av, bv, s1, s2), c, (can, can3)
 
     def goal(p, twin=False):
         if p.kind == "exc":
             return False
-        (av, bv, s1, s2), c, can = p.value
+        (av, bv, s1, s2), c, (can, can3) = p.value
         v1, v2 = s1 * av, s2 * bv
         ok = len(c) == 2 and all(int(x) == x and x != 0 for x in c) and c[0] * v1 + c[1] * v2 == 0
         # cancel: smallest-magnitude truncated quotient -v1/v2 over the species of the second equilibrium
@@ -284,7 +291,7 @@ def task_eliminate(maxc):
             return q_ if (a_ >= 0) == (b_ > 0) else -q_
         cands = [tq(-v1, v2), tq(-(-s1 * 2), -s2 * 1)]
         best = min(abs(x) for x in cands)
-        ok = ok and abs(can) == best and can in cands
+        ok = ok and abs(can) == best and can in cands and can3 == 0
         return bool(ok) if not twin else False
 
     o = explore_and_prove(fn, assum, goal, max_paths=5000)
